@@ -139,14 +139,38 @@ func (w checkedWire) RoundTrip(r *http.Request) (*http.Response, error) {
 // exchange submits the operation through a fresh client runtime whose transport is the wire double; serve is
 // run on the request as the server parsed it.
 func exchange(op *runtime.ClientOperation, def runtime.ClientAuthInfoWriter, serve func(r *http.Request)) *kit.Violation {
+	return exchangeAfter(nil, op, def, serve)
+}
+
+// exchangeAfter is exchange on a transport that has, if earlier is non-nil, already sent one plain request with
+// that earlier default credential configured.
+func exchangeAfter(earlier runtime.ClientAuthInfoWriter, op *runtime.ClientOperation, def runtime.ClientAuthInfoWriter, serve func(r *http.Request)) *kit.Violation {
+	warming := earlier != nil
 	w := &wire{h: http.HandlerFunc(func(rw http.ResponseWriter, r *http.Request) {
-		serve(r)
+		if !warming {
+			serve(r)
+		}
 		rw.Header().Set("Content-Type", "application/json")
 		rw.WriteHeader(http.StatusOK)
 		_, _ = rw.Write([]byte("{}\n"))
 	})}
 	rt := client.New("example.test", "/", []string{"http"})
 	rt.Transport = checkedWire{w}
+	if earlier != nil {
+		rt.DefaultAuthentication = earlier
+		warm := &runtime.ClientOperation{ID: "earlier", Method: "GET", PathPattern: "/earlier",
+			Params: runtime.ClientRequestWriterFunc(func(runtime.ClientRequest, strfmt.Registry) error { return nil }),
+			Reader: runtime.ClientResponseReaderFunc(func(runtime.ClientResponse, runtime.Consumer) (interface{}, error) { return nil, nil })}
+		var werr error
+		if v := kit.Guard("Runtime.Submit (earlier request)", func() { _, werr = rt.Submit(warm) }); v != nil {
+			return v
+		}
+		if werr != nil {
+			return kit.Failf("SUBMIT: the earlier request failed: %v", werr)
+		}
+		warming = false
+		w.served = 0
+	}
 	rt.DefaultAuthentication = def
 	if op.Params == nil {
 		op.Params = runtime.ClientRequestWriterFunc(func(runtime.ClientRequest, strfmt.Registry) error { return nil })
@@ -582,6 +606,9 @@ type DefaultCase struct {
 	Op      *Cred    `json:"op,omitempty"`
 	Preset  kit.BStr `json:"preset,omitempty"` // Authorization value set by the parameter writer ("" = not set); never a Basic/Bearer credential
 	Method  string   `json:"method"`
+	// Rotated: the same transport has already sent a request under another default credential (a token that has
+	// been rotated since): the default that counts is the one configured when the request is made.
+	Rotated *Cred `json:"rotated,omitempty"`
 }
 
 // CheckDefault: the default credential is applied iff the operation has no writer of its own and no
@@ -609,7 +636,11 @@ func CheckDefault(c DefaultCase) *kit.Violation {
 		})
 	}
 	applied := map[string]bool{}
-	if v := exchange(op, c.Default.writer(), func(r *http.Request) {
+	var earlier runtime.ClientAuthInfoWriter
+	if c.Rotated != nil {
+		earlier = c.Rotated.writer()
+	}
+	if v := exchangeAfter(earlier, op, c.Default.writer(), func(r *http.Request) {
 		authz = r.Header.Values("Authorization")
 		for _, na := range []struct {
 			name string
